@@ -138,25 +138,29 @@ def _one(t):
         m.call(SET_PATH, [Ptr(V.PDU, 0), Ptr('pathobj', 0)])
         m.call(SET_DATA, [Ptr(V.PDU, 0), Ptr('val', 0)])
         return None
-    ws = bpa.analyse(ctx.mod, script, lambda: ([], regions()), max_worlds=2, max_steps=4000000, gcache=ctx.gcache)
+    ws = bpa.analyse(ctx.mod, script, lambda: ([], regions()), max_worlds=32, max_steps=4000000, gcache=ctx.gcache)
     desc = '%s path (%d octets) + %s x%d' % ('static-id' if mode == V.STATIC else 'interop', plen, name, count)
     key = 'encode:m%d:p%d:t%02x:n%d' % t
     where = FC.fnloc(ctx, SET_DATA)
-    if len(ws) != 1 or ws[0].status != 'ok':
-        return [('undecided', key, '%s [%s]: %s' % (where, desc, [w.reason for w in ws]))], 0
-    w = ws[0]
+    oks, err = FC.ok_worlds(ws)
+    if err:
+        return [('undecided', key, '%s [%s]: %s' % (where, desc, err))], 0
     out = []
-    st, text = V.compare_region(w.regions[V.PDU], exp)
-    if st != 'ok':
-        out.append((st, key + ':image', '%s [%s]: %s' % (where, desc, text)))
-    oob = [o for o in w.oob]
-    if oob:
-        out.append(('violation', key + ':beyond', '%s [%s]: %s - outside the %d octets the message occupies / the caller\'s objects'
-                    % (where, desc, FC.fmt_oob(oob[0]), total)))
-    for rn in ('pathobj', 'pathbytes', 'val', 'arr', 'elems'):
-        r = w.regions.get(rn)
-        if r is not None and r.writes:
-            out.append(('violation', key + ':caller-written', '%s [%s]: the caller\'s %s object is written while encoding' % (where, desc, rn)))
+    for w in oks:
+        with FC.with_world(w.decisions):
+            st, text = V.compare_region(w.regions[V.PDU], exp)
+        if st != 'ok':
+            out.append((st, key + ':image', '%s [%s]: %s' % (where, desc, text)))
+        oob = [o for o in w.oob]
+        if oob:
+            out.append(('violation', key + ':beyond', '%s [%s]: %s - outside the %d octets the message occupies / the caller\'s objects'
+                        % (where, desc, FC.fmt_oob(oob[0]), total)))
+        for rn in ('pathobj', 'pathbytes', 'val', 'arr', 'elems'):
+            r = w.regions.get(rn)
+            if r is not None and r.writes:
+                out.append(('violation', key + ':caller-written', '%s [%s]: the caller\'s %s object is written while encoding' % (where, desc, rn)))
+        if out:
+            break
     return out, (0 if out else 1)
 
 
@@ -183,6 +187,8 @@ def _reserved(t):
     where = FC.fnloc(ctx, fn)
     out = []
     for w in ws:
+        if w.status == 'infeasible':
+            continue
         if w.status != 'ok':
             # a reserved code leading into an undecidable path is itself suspicious, but not a verdict
             out.append(('undecided', key, '%s (reserved %s): %s' % (where, kind, w.reason)))
